@@ -396,3 +396,215 @@ pub fn check_cert(c: &Cert, spec: &CertSpec, subject_spki: &[u8], issuer: &Issue
 	let want = cert_want_exts(spec, subject_spki, issuer);
 	exts_match(&c.extensions, &want, "certificate")
 }
+
+// ---------------------------------------------------------------------------------------------
+// CSR (C07)
+
+/// Extensions the extensionRequest of a CSR generated from `spec` must contain.
+pub fn csr_want_exts(spec: &CertSpec) -> Vec<WantExt> {
+	let mut w = Vec::new();
+	if !spec.key_usages.is_empty() {
+		w.push(WantExt {
+			oid: x509::OID_KU.to_vec(),
+			critical: None,
+			value: WantValue::KeyUsage(spec.key_usages.iter().map(|&b| (b % 9) as u32).collect()),
+			optional: false,
+		});
+	}
+	if !spec.sans.is_empty() {
+		w.push(WantExt {
+			oid: x509::OID_SAN.to_vec(),
+			critical: None,
+			value: WantValue::San(spec.sans.clone()),
+			optional: false,
+		});
+	}
+	if !spec.ekus.is_empty() {
+		w.push(WantExt {
+			oid: x509::OID_EKU.to_vec(),
+			critical: None,
+			value: WantValue::Eku(spec.ekus.iter().map(|e| e.oid()).collect()),
+			optional: false,
+		});
+	}
+	for c in &spec.custom_exts {
+		w.push(custom_ext_want(c));
+	}
+	w
+}
+
+pub fn check_csr(c: &x509::Csr, spec: &CertSpec, subject_spki: &[u8], attrs: &[(Vec<u64>, Vec<u8>)]) -> Result<(), String> {
+	if c.version != 0 {
+		return Err(format!("CSR version {} (must be 0)", c.version));
+	}
+	name_matches(&c.subject, &spec.dn.effective(), "csr subject")?;
+	if c.spki.raw != subject_spki {
+		return Err("CSR SubjectPublicKeyInfo differs from the requester's key".into());
+	}
+	if !c.attributes_present {
+		return Err("CSR attributes [0] field is absent".into());
+	}
+	let want_exts = csr_want_exts(spec);
+	let want_req = !want_exts.is_empty();
+	if c.ext_requests.len() != want_req as usize {
+		return Err(format!(
+			"{} extensionRequest attribute(s) present, {} expected",
+			c.ext_requests.len(),
+			want_req as usize
+		));
+	}
+	if want_req {
+		exts_match(&Some(c.ext_requests[0].clone()), &want_exts, "extensionRequest")?;
+	}
+	// caller-supplied attributes byte for byte, as a multiset
+	let mut got: Vec<(Vec<u64>, Vec<u8>)> = c
+		.attributes
+		.iter()
+		.filter(|a| a.oid != x509::OID_EXT_REQ)
+		.map(|a| (a.oid.clone(), a.values_raw.clone()))
+		.collect();
+	let mut want: Vec<(Vec<u64>, Vec<u8>)> = attrs.to_vec();
+	got.sort();
+	want.sort();
+	if got != want {
+		return Err(format!(
+			"caller attributes not embedded unchanged: encoded {:?}, supplied {:?}",
+			got.iter().map(|(o, v)| (o.clone(), der::hex(v))).collect::<Vec<_>>(),
+			want.iter().map(|(o, v)| (o.clone(), der::hex(v))).collect::<Vec<_>>()
+		));
+	}
+	Ok(())
+}
+
+// ---------------------------------------------------------------------------------------------
+// CRL (C08)
+
+pub fn check_crl(c: &x509::Crl, spec: &CrlSpec, issuer_dn: &DnSpec, issuer_spki: &[u8]) -> Result<(), String> {
+	name_matches(&c.issuer, &issuer_dn.effective(), "crl issuer")?;
+	if c.this_update.unix != spec.this_update.unix {
+		return Err(format!("thisUpdate decodes to {} ({}), requested {}", c.this_update.unix, c.this_update.text, spec.this_update.unix));
+	}
+	let nu = c.next_update.as_ref().ok_or("nextUpdate is absent")?;
+	if nu.unix != spec.next_update.unix {
+		return Err(format!("nextUpdate decodes to {} ({}), requested {}", nu.unix, nu.text, spec.next_update.unix));
+	}
+	// CRL-level extensions
+	let exts = c.extensions.as_ref().ok_or("crlExtensions absent")?;
+	let mut seen_aki = false;
+	let mut seen_num = false;
+	let mut seen_idp = false;
+	for e in exts {
+		match &e.value {
+			ExtValue::Aki { key_id, has_issuer_or_serial } => {
+				let want = key_id_for_crl(&spec.kid, issuer_spki);
+				if *has_issuer_or_serial || key_id.as_deref() != Some(want.as_slice()) {
+					return Err(format!(
+						"CRL AKI {:?}, expected {} (chosen method over the issuer key)",
+						key_id.as_ref().map(|k| der::hex(k)),
+						der::hex(&want)
+					));
+				}
+				if seen_aki {
+					return Err("two AKI extensions".into());
+				}
+				seen_aki = true;
+			},
+			ExtValue::CrlNumber(n) => {
+				let got = der::uint_magnitude(n).ok_or("negative CRL number")?;
+				if got != strip_zeros(&spec.crl_number.0) {
+					return Err(format!("CRL number {} but {} requested", der::hex(&got), der::hex(&strip_zeros(&spec.crl_number.0))));
+				}
+				if seen_num {
+					return Err("two CRL number extensions".into());
+				}
+				seen_num = true;
+			},
+			ExtValue::Idp { full_name, only_user, only_ca, other_fields } => {
+				let want = spec.idp.as_ref().ok_or("issuingDistributionPoint present but not requested")?;
+				if *other_fields {
+					return Err("issuingDistributionPoint carries fields nobody requested".into());
+				}
+				let names = full_name.as_ref().ok_or("issuingDistributionPoint without distributionPoint")?;
+				list_matches(names, &want.uris, |n, u| matches!(n, GeneralName::Uri(b) if b == u.as_bytes()), "idp.fullName")?;
+				let (wu, wc) = match want.scope {
+					None => (false, false),
+					Some(ScopeSpec::User) => (true, false),
+					Some(ScopeSpec::Ca) => (false, true),
+				};
+				if *only_user != wu || *only_ca != wc {
+					return Err(format!("IDP scope onlyUser={only_user} onlyCA={only_ca}, requested {:?}", want.scope));
+				}
+				if seen_idp {
+					return Err("two IDP extensions".into());
+				}
+				seen_idp = true;
+			},
+			_ => return Err(format!("CRL extension {:?} appears but was not requested", e.oid)),
+		}
+	}
+	if !seen_aki {
+		return Err("CRL has no authority key identifier".into());
+	}
+	if !seen_num {
+		return Err("CRL has no CRL number".into());
+	}
+	if spec.idp.is_some() && !seen_idp {
+		return Err("requested issuingDistributionPoint is missing".into());
+	}
+	// entries
+	let empty = Vec::new();
+	let entries = c.revoked.as_ref().unwrap_or(&empty);
+	if entries.len() != spec.revoked.len() {
+		return Err(format!("{} revoked entries encoded, {} requested", entries.len(), spec.revoked.len()));
+	}
+	for (i, (e, w)) in entries.iter().zip(spec.revoked.iter()).enumerate() {
+		let got = der::uint_magnitude(&e.serial).ok_or_else(|| format!("entry {i}: negative serial"))?;
+		if got != strip_zeros(&w.serial.0) {
+			return Err(format!("entry {i}: serial {} but {} requested", der::hex(&got), der::hex(&strip_zeros(&w.serial.0))));
+		}
+		if e.revocation_date.unix != w.revocation_time.unix {
+			return Err(format!("entry {i}: revocationDate {} ({}), requested {}", e.revocation_date.unix, e.revocation_date.text, w.revocation_time.unix));
+		}
+		let mut reason: Option<u64> = None;
+		let mut inv: Option<&der::TimeVal> = None;
+		for x in e.extensions.iter().flatten() {
+			match &x.value {
+				ExtValue::Reason(r) => {
+					if reason.is_some() {
+						return Err(format!("entry {i}: two reason codes"));
+					}
+					reason = Some(*r)
+				},
+				ExtValue::InvalidityDate(t) => {
+					if inv.is_some() {
+						return Err(format!("entry {i}: two invalidity dates"));
+					}
+					inv = Some(t)
+				},
+				_ => return Err(format!("entry {i}: extension {:?} appears but was not requested", x.oid)),
+			}
+		}
+		// absent and unspecified(0) are equivalent
+		let want_reason = w.reason.map(|r| r.code()).unwrap_or(0);
+		if reason.unwrap_or(0) != want_reason {
+			return Err(format!("entry {i}: reason code {:?}, requested {:?}", reason, w.reason));
+		}
+		match (inv, &w.invalidity_date) {
+			(None, None) => {},
+			(Some(t), Some(wt)) => {
+				if t.unix != wt.unix {
+					return Err(format!("entry {i}: invalidityDate {} ({}), requested {}", t.unix, t.text, wt.unix));
+				}
+				if t.form != der::TimeForm::Generalized {
+					return Err(format!("entry {i}: invalidityDate '{}' is not encoded as GeneralizedTime", t.text));
+				}
+			},
+			(g, w) => return Err(format!("entry {i}: invalidityDate present={} requested={}", g.is_some(), w.is_some())),
+		}
+	}
+	Ok(())
+}
+
+pub fn key_id_for_crl(kid: &KidSpec, issuer_spki: &[u8]) -> Vec<u8> {
+	key_id(kid, issuer_spki)
+}
